@@ -27,4 +27,4 @@ For mutant i (i = 1..{n}) produce in {out}/:
   - mutant{{i}}.diff  : `git diff` of the change against the clean worktree (must apply with `git apply` in a clean checkout);
   - demo{{i}}.py      : a small standalone program (run as `PYTHONPATH=<tree> /venv/bin/python demo{{i}}.py`) that exits 0 on the clean tree and exits non-zero (failed assertion that states the violated expectation) with mutant i applied;
   - meta{{i}}.json    : {{"property": "{pid}", "summary": "...what was changed...", "needs": "...what is required for the violation to manifest...", "files": [...]}}
-Verify each yourself: clean tree -> demo passes; apply diff -> full test suite still passes AND demo fails; then `git checkout -- .` to restore the clean tree before the next mutant. Leave the worktree clean at the end. Finish with a short report listing, per mutant, the changed site, why tests still pass, and what triggers the violation. If you cannot make one satisfy (a), drop it and try a different idea rather than editing tests.""")
+Verify each yourself: clean tree -> demo passes; apply diff -> full test suite still passes AND demo fails; then `git checkout -- .` to restore the clean tree before the next mutant. Never use `git stash` (the stash is shared between worktrees and other people work in sibling worktrees); save work with `git diff > file` instead. Leave the worktree clean at the end. Finish with a short report listing, per mutant, the changed site, why tests still pass, and what triggers the violation. If you cannot make one satisfy (a), drop it and try a different idea rather than editing tests.""")
